@@ -738,6 +738,9 @@ class Exec(object):
                         b = self.p.by_impl.get((im['file'], im['line'], im['col'], m.group(3)))
                         if b:
                             return self.eval_const_body(st, b.sname, fr)
+        m = re.fullmatch(r'(?:(?:std|core)::cmp::)?(?:Ordering::)?(Less|Equal|Greater)', s)
+        if m:
+            return Adt('Ordering', {'Less': -1, 'Equal': 0, 'Greater': 1}[m.group(1)], [])
         m = re.fullmatch(r'(?:std::result::|core::result::)?Result::<.*>::(Ok|Err)\((.*)\)', s)
         if m:
             return Adt('Result', 0 if m.group(1) == 'Ok' else 1, [self.const(st, fr, m.group(2))])
@@ -919,6 +922,10 @@ class Exec(object):
             if not isinstance(v, Adt):
                 raise Unsupported('discriminant of %r' % (v,))
             var = v.variant
+            if v.ty == 'Ordering':
+                # #[repr(i8)]: Less = -1 is the switch target 255
+                t8 = z3.BitVecVal(var, 8) if isinstance(var, int) else z3.simplify(z3.Extract(7, 0, var))
+                return Int(t8, True)
             return Int(z3.BitVecVal(var, 64), True) if isinstance(var, int) else Int(var, True)
         if k in ('adt_tuple', 'adt_unit', 'adt_struct'):
             ml = re.search(r'for (?:\w+::)*(\w+)<.*>>::\w+::(__\w+)::(\w+)$', a[0]) if '::__' in a[0] else None
@@ -955,6 +962,8 @@ class Exec(object):
                 if ty in ('Range', 'RangeFrom', 'RangeTo'):
                     return Adt(ty, 0, [self.operand(st, fr, o) for n, o in a[1]])
                 raise Unsupported('struct aggregate %s' % a[0])
+            if segs[-1] in ('Less', 'Equal', 'Greater') and (len(segs) == 1 or segs[-2] == 'Ordering'):
+                return Adt('Ordering', {'Less': -1, 'Equal': 0, 'Greater': 1}[segs[-1]], [])
             args = [self.operand(st, fr, o) for o in (a[1] if k == 'adt_tuple' else [])]
             ty, var = (segs[-2], segs[-1]) if len(segs) >= 2 else (segs[-1], None)
             if ty == 'Option':
@@ -1095,6 +1104,14 @@ class Exec(object):
                 return Int(x.t ^ y.t, s)
             if op in ('AddWithOverflow', 'SubWithOverflow', 'MulWithOverflow'):
                 n = x.t.size()
+
+                def widened(t):
+                    return z3.is_app(t) and t.decl().kind() in (z3.Z3_OP_SIGN_EXT, z3.Z3_OP_ZERO_EXT) and t.arg(0).size() * 2 <= n
+                if n >= 128 and widened(x.t) and widened(y.t):
+                    # both operands were widened from at most half the width: the operation cannot overflow, and the double-width product a bit-blasting
+                    # solver chokes on is not needed
+                    f0 = {'Add': lambda p, q: p + q, 'Sub': lambda p, q: p - q, 'Mul': lambda p, q: p * q}[op[:3]]
+                    return Adt('tuple', 0, [Int(f0(x.t, y.t), s), z3.BoolVal(False)])
                 ext = (lambda t: z3.SignExt(n, t)) if s else (lambda t: z3.ZeroExt(n, t))
                 f = {'Add': lambda p, q: p + q, 'Sub': lambda p, q: p - q, 'Mul': lambda p, q: p * q}[op[:3]]
                 wide = f(ext(x.t), ext(y.t))
@@ -1212,9 +1229,10 @@ class Exec(object):
             v = Int(v.t, True)
         tv = z3.simplify(v.t)
         if z3.is_bv_value(tv):
-            val = tv.as_signed_long() if v.signed else tv.as_long()
+            val = tv.as_long()
+            mod = 1 << tv.size()
             for key, bb in arms:
-                if key != 'otherwise' and int(key) == val:
+                if key != 'otherwise' and int(key) % mod == val:        # targets are printed as the unsigned bit pattern or as a signed literal
                     self.goto(fr, bb)
                     return None
             self.goto(fr, dict(arms)['otherwise'])
